@@ -174,6 +174,8 @@ func (op Op) wrapAfterAttrsOrAssign() bool {
 
 func fmtArgs(m int, c Content, form int) string {
 	switch form {
+	case fPtr:
+		return "&" + fmtArgs(m, c, fStruct)
 	case fStruct:
 		var p []string
 		for _, kv := range c {
@@ -301,15 +303,34 @@ func alphabet(m int) (core, wrapped []Op) {
 			}
 		}
 	}
+	// P1 pointer block: every struct argument of the chain given as a pointer
+	for fin := 0; fin < 2; fin++ {
+		for c := range condSet {
+			for inline := 0; inline < 2; inline++ {
+				for at := 0; at < 2; at++ {
+					for as := 0; as < 2; as++ {
+						o := Op{Kind: "first", Fin: fin, Cond: c, CondForm: fPtr, CondInline: inline == 1}
+						if at == 1 {
+							o.Attrs, o.AttrsForm = 2, fPtr
+						}
+						if as == 1 {
+							o.Assign, o.AssignForm = 1, fPtr
+						}
+						add(o)
+					}
+				}
+			}
+		}
+	}
 	core = ops
 	ops = nil
 	// P2: shape product (every form of condition, Attrs, Assign) with
 	// Session / WithContext at every position of the chain
 	for fin := 0; fin < 2; fin++ {
-		for condShape := 0; condShape < 4; condShape++ {
-			for atf := -1; atf < 3; atf++ {
-				for asf := -1; asf < 3; asf++ {
-					o := Op{Kind: "first", Fin: fin, Cond: 0, CondForm: condShape % 2, CondInline: condShape >= 2}
+		for condShape := 0; condShape < 6; condShape++ {
+			for atf := -1; atf < 4; atf++ {
+				for asf := -1; asf < 4; asf++ {
+					o := Op{Kind: "first", Fin: fin, Cond: 0, CondForm: []int{fStruct, fMap, fPtr}[condShape%3], CondInline: condShape >= 3}
 					if atf >= 0 {
 						o.Attrs, o.AttrsForm = 1, atf
 					}
